@@ -39,7 +39,8 @@ def check_values(fn_name, got, st, k, case):
     want = expected(st, k)[fn_name]
     if close(got, want, 1e-11, 1e-11 * k):
         return None
-    tie_trace = o['trace_zero'] and 'trace' in fn_name and not exact_float(st)
+    dyadic = float(k) == 2.0 ** round(np.log2(abs(float(k)))) or float(k) in (3.0,)      # factors with which the scaled components stay exact sums (powers of two; 3 on the small integer lattice)
+    tie_trace = o['trace_zero'] and 'trace' in fn_name and (not exact_float(st) or not dyadic)      # a mathematically zero trace is rounding noise of either sign once the components are rounded
     tie_abs = o['absmax_tie'] and 'abs_max' in fn_name and not diagonal(st)
     if (tie_trace or tie_abs) and close(got, -want, 1e-11, 1e-11 * k):
         return None
